@@ -83,8 +83,24 @@ func ruleReadDirOrder(r *Run, p *Program, rule string) {
 					r.bad(rule, funcKey(f)+":listing-loop", p.Pos(cd.If.Cond.Pos()), "the loop over the directory listing is left early ("+cd.String(p)+") without an error: what is processed depends on the order in which the file system lists the directory (sorted by name on the OS file systems, random in memory) - entries behind the first one of another kind are never handled")
 				}
 			}
+			// and the loop is not bypassed: every return that can report success lies behind it
+			for _, ret := range returnsOf(f) {
+				if errResultIndex(f) >= 0 && isFailureReturn(f, ret) {
+					continue
+				}
+				behind := false
+				for _, b := range f.Blocks {
+					if (b == body || sameCycle(b, body)) && b.Dominates(ret.Block()) {
+						behind = true
+					}
+				}
+				if !behind {
+					bad = true
+					r.bad(rule, funcKey(f)+":listing-loop", p.Pos(instrPos(ret)), "the function can return success without walking the directory listing it read: the per-entry work (removing the recovery backups, moving stale files aside, summing sizes) silently does not happen")
+				}
+			}
 			if !bad {
-				r.ok(rule, funcKey(f)+":listing-loop", p.Pos(c.Pos()), "the loop over FileSystem.ReadDir's result is left only at its bound or by failing", true)
+				r.ok(rule, funcKey(f)+":listing-loop", p.Pos(c.Pos()), "the loop over FileSystem.ReadDir's result is left only at its bound or by failing, and no success return bypasses it", true)
 			}
 		}
 	}
